@@ -162,7 +162,23 @@ def builds(table, seed, tier, prefix='b'):
                         bg[1] = 0
                     if cls == 'if':
                         bg[29] = rng.randrange(3)
+                same = None
+                if cls in ('can', 'canfd', 'lin', 'eth') and rng.random() < 0.35:
+                    # a received-looking prior state: the size and the length field agree with each other, the other
+                    # length-dependent bytes (DLC) need not; the first build then supplies data of exactly that length
+                    # ("same length as before" shortcuts, round6a-4)
+                    same = rng.choice([0, 1, 8, 12, 20, 64])
+                    bg = bg[:HDR_SIZE[cls]] + [rng.randrange(256) for _ in range(same)]
+                    if cls in ('can', 'canfd'):
+                        bg[15] = same
+                        bg[14] = rng.choice([0, 15, rng.randrange(16)])
+                    elif cls == 'lin':
+                        bg[7] = same
+                    else:
+                        bg[4], bg[5] = same >> 8, same & 255
                 ops = [{'op': 'load', 'cls': cls, 'raw': fix_background(cls, bg)}]
+                if same is not None:
+                    ops.append({'op': 'setData', 'data': [rng.randrange(256) for _ in range(same)]})
             for _ in range(rng.choice([1, 2, 4, 6])):
                 if rng.random() < 0.5:
                     f = rng.choice(fs)
